@@ -825,6 +825,8 @@ def rule_gpwait(ctx, rep):
         pat.require(n >= 2, "%s: only %d grace-period wait sites found in the library" % (fl, n))
 
 
+META["explanation"] += " " + 'Also (round 13): no library path waits for a grace period while it or a caller holds a lock that call_rcu() takes inside its read-side section (C03.gpwait, over the lock-order graph with caller contexts).'
+
 RULES = [
     ("C03.helper", rule_helper_loop),
     ("C03.init", rule_init_before_thread),
